@@ -42,6 +42,29 @@ def run(ctx):
             ids.append(cid)
             cases.append({"id": cid, "steps": st2, "marks": marks})
         groups.append((t, steps, marks, ids))
+    # many small files with tiny block / hunk limits: combined blocks fill up inside index hunks, which is where a
+    # dependence on task scheduling would show; each replayed several times under the multi-thread flavours
+    for t in range(2 if quick else 12):
+        wide = t % 2 == 0      # wide: hundreds of files per combined block, so a background write would finish mid-block
+        nfiles = ctx.rng.choice([600, 900]) if wide else ctx.rng.choice([120, 200, 320])
+        tree = {"k": "d", "mode": 0o755, "mtime": 10**18, "c": {}}
+        for i in range(nfiles):
+            tree["c"][f"f{i:04d}"] = {"k": "f", "data": bytes(ctx.rng.choice(b"abcdefgh") for _ in range(ctx.rng.choice([3, 5, 8]))).hex() + f"{i:04x}",
+                                      "mode": 0o644, "mtime": 10**18 + i}
+        opts = {"meph": ctx.rng.choice([7, 16, 50]), "mbs": ctx.rng.choice([40, 96, 200]), "sfc": 16}
+        if wide:
+            opts = {"meph": ctx.rng.choice([260, 410]), "mbs": ctx.rng.choice([1500, 2500]), "sfc": 16}
+        steps = [{"op": "init"}, {"op": "mktree", "path": "src", "tree": tree}, {"op": "backup", "opts": opts}, {"op": "arch"}]
+        marks = [{"kind": "init"}, {"kind": "mktree"}, {"kind": "backup"}, {"kind": "arch"}]
+        ids = []
+        for rt in ["current", "multi2", "multi8", "multi2", "multi8", "multi8"]:
+            st2 = copy.deepcopy(steps)
+            st2[2]["runtime"] = rt
+            st2[0]["runtime"] = rt
+            cid = f"m{t}_{rt}_{len(ids)}"
+            ids.append(cid)
+            cases.append({"id": cid, "steps": st2, "marks": marks})
+        groups.append((f"m{t}", steps, marks, ids))
     res = ctx.cvh_run(cases, timeout=3000)
     hs = []
     for t, steps, marks, ids in groups:
@@ -74,6 +97,9 @@ def run(ctx):
             continue
         if sum(1 for m in marks if m["kind"] == "backup") >= 2:
             ctx.nontrivial(json.dumps([m["kind"] + str(m.get("ids") or "") for m in marks if m["kind"] in ("backup", "delete")]))
+        if isinstance(t, str):
+            ctx.dist("many_small_files_histories")
+            continue
         # the model against the multi-threaded run (traces are compared without the concurrently issued groups' order)
         cid, archs, r = finals[2]
         names = l4.Names()
